@@ -5,9 +5,12 @@ from common import Fr, enc_f, dec_f, close, rng
 import gmgen, rggen
 
 LEAN_MODULE = 'PGM.Properties.C16'
-LEAN_EXTRA = ['PGM.Properties.C16G']
-TRANSLATORS = ('py2fg',)     # the non-convex path of factor_graph.py (__init__, init_messages, loopy_belief_propagation, clique_marginals,
-                              # primal_feasibility) -> Generated/FactorGraphG.lean, proved equal to Model/FactorGraph.lean in C16G
+LEAN_EXTRA = [
+    'PGM.Properties.C17G',
+]
+TRANSLATORS = (
+    'py2rg',      # region_graph.py (hazan_peng_shashua, generalized_belief_propagation, primal_feasibility, build_graph) -> Generated/RegionGraphG.lean, proved equal to Model/RegionGraph.lean in C17G
+)
 TRUSTED = ['Lean 4.33 kernel', 'axioms: propext, Classical.choice, Quot.sound',
            'hand models PGM/Model/RegionGraph.lean (build_graph, generalized_belief_propagation, hazan_peng_shashua, primal_feasibility) and '
            'PGM/Model/FactorGraph.lean (init_messages, loopy_belief_propagation, clique_marginals, primal_feasibility) tied to '
